@@ -7,7 +7,7 @@
    computes the idler waist position from the OLD idler; without that hypothesis the statement is refuted,
    Findings/C20_old_idler.v).  After ONE optimisation the hypothesis holds, so optimising twice is always a fixed point. *)
 From Coq Require Import Reals QArith Qreals Lra Lia ZArith String List Bool.
-From SpdVerif Require Import Base.Rx Base.NumOps Model.NumInst Spec.ConfigSpec Gen.ConfigTables Spec.ConfigUnits
+From SpdVerif Require Import Base.Rx Base.CfgNumOps Model.NumInst Spec.ConfigSpec Gen.ConfigTables Spec.ConfigUnits
   Model.ConfigTypes Model.Config Proofs.C16_round Proofs.C16_stable.
 Import ListNotations.
 Local Open Scope R_scope.
